@@ -28,7 +28,7 @@ Wraps == {<<>>, <<"ptr">>, <<"iface", "ptr">>}
 
 PlainScalars ==
   {Null, Bool(TRUE), Bool(FALSE), Num(R_0), Num(R_1), Num(R_1h), Num(R_2), Num(R_2p53), Num(R_2p53p1), Num(R_i64max),
-   Num(R_m1), Num(R_m1h), Num(R_m128), Num(R_i64min), Num(R_m2p53),
+   Num(R_m1), Num(R_m1h), Num(R_mh), Num(R_h), Num(R_m128), Num(R_i64min), Num(R_m2p53),    \* (-1/2: negative with integer part zero)
    Num(R_2p63), Num(R_u64max), Num(R_p3), Num(R_p1p2), Str("1"), Str("a"), Str(""), Str("U_e1"), Str("U_e2"), Str("0")}
 PlainContainers ==
   {EmptyArr, Arr(<<Num(R_1)>>), Arr(<<Num(R_1), Num(R_2)>>), Arr(<<Num(R_2), Num(R_1)>>), Arr(<<Arr(<<Num(R_1)>>)>>),
